@@ -7,7 +7,14 @@ from . import ctrl
 
 def readsback_map(r):
     """PWM maps under which the fan reads back what was written, with a matching device response"""
-    k = r.below(3)
+    k = r.below(4)
+    if k == 3:
+        # a limited-range map (the fan's electronics take 0..top only): the register holds what was written, which is BELOW
+        # the requested input - also below a never-stop fan's minimum, which is a quantity of the input side (seed C05i: a
+        # "safety net" in the fan backend raised register values to the minimum)
+        top = r.pick([100, 120, 180])
+        ks = sorted(set([0, 255] + [r.range(1, 254) for _ in range(r.pick([3, 6, 30]))]))
+        return {x: (x * top) // 255 for x in ks}, "id"
     if k == 0:
         return {i: i for i in range(256)}, "id"
     if k == 1:
@@ -125,7 +132,7 @@ def gen_interfere_busy(r, tier):
 class C05(Prop):
     id = "C05"
     lean_modules = ["Fan2go.Props.C05"]
-    fact_modules = ["Fan2go.Props.Facts", "Fan2go.Props.Trans2Keys", "Fan2go.Props.Trans3A", "Fan2go.Props.Trans3B", "Fan2go.Props.Trans3Fan", "Fan2go.Props.Trans3FileFan"]
+    fact_modules = ["Fan2go.Props.Facts", "Fan2go.Props.Trans2Keys", "Fan2go.Props.Trans3A", "Fan2go.Props.Trans3B", "Fan2go.Props.Trans3Fan", "Fan2go.Props.Trans3FileFan", "Fan2go.Props.Trans3FileIO"]
     rule = ("interfere: controller worlds (hwmon / file / cmd fans, cmd = real scripts and processes) whose PWM map reads back (identity, sparse identity, idempotent quantiser with a "
             "matching device) x every loop x curve trajectories, with an external change of mode in {0,2,3} and/or PWM 0..255 "
             "before a random cycle index (plus random extra ones). non-trivial = distinct (kind, map shape, loop, interference "
